@@ -393,9 +393,60 @@ def _tail(stmts, assign) -> List[ast.stmt]:
                 new_try.handlers.append(ast.copy_location(nh, h))
             out.append(ast.copy_location(new_try, st))
             return out
+        if isinstance(st, ast.For) and not st.orelse and _contains_return(st) and _loop_returns_are_plain(st):
+            # a search loop: `for x in xs: if c: return E` ... `return D`  ->  `for x in xs: if c: t = E; break` / `else: t = D`
+            probe = assign(ast.Name(id='_', ctx=ast.Load()))
+            if probe and isinstance(probe[-1], ast.Return):
+                # the call is itself in return position: the returns stay returns, what follows the loop follows it here too
+                new = copy.deepcopy(st)
+                new.body = _replace_loop_returns(new.body, assign, add_break=False)
+                out.append(new)
+                out += _tail(rest, assign)
+                return out
+            new = copy.deepcopy(st)
+            new.body = _replace_loop_returns(new.body, assign, add_break=True)
+            new.orelse = _tail(rest, assign) if rest else assign(None)
+            if not new.orelse:
+                new.orelse = [ast.Pass()]
+            out.append(new)
+            return out
         if not isinstance(st, ast.Return) and _contains_return(st):
             raise NotInlinable('a return inside a loop / try / with')
         out.append(st)
+    return out
+
+
+def _loop_returns_are_plain(loop: ast.For) -> bool:
+    """every return of the loop sits in its body under ifs only (not in a nested loop, try or with), and the loop has no break / continue of its own"""
+    def ok(stmts) -> bool:
+        for s in stmts:
+            if isinstance(s, (ast.Break, ast.Continue)):
+                return False
+            if isinstance(s, ast.If):
+                if not ok(s.body) or not ok(s.orelse):
+                    return False
+            elif isinstance(s, (ast.For, ast.While, ast.Try, ast.With)):
+                if _contains_return(s) or any(isinstance(n, (ast.Break, ast.Continue)) for n in ast.walk(s)) and not isinstance(s, (ast.For, ast.While)):
+                    return False
+            elif _contains_return(s) and not isinstance(s, ast.Return):
+                return False
+        return True
+    return ok(loop.body)
+
+
+def _replace_loop_returns(stmts, assign, add_break: bool):
+    out = []
+    for s in stmts:
+        if isinstance(s, ast.Return):
+            out += [ast.copy_location(x, s) for x in assign(s.value)]
+            if add_break:
+                out.append(ast.copy_location(ast.Break(), s))
+            return out
+        if isinstance(s, ast.If):
+            new = ast.If(test=s.test, body=_replace_loop_returns(s.body, assign, add_break) or [ast.Pass()], orelse=_replace_loop_returns(s.orelse, assign, add_break))
+            out.append(ast.copy_location(new, s))
+        else:
+            out.append(s)
     return out
 
 
@@ -1382,17 +1433,30 @@ class Canon:
                         return False
         return True
 
-    @staticmethod
-    def _builtin_bound_method(fn, value, defs) -> bool:
-        """`o.m` where o is a local bound once to a dict / list / set display (or comprehension) and m is a method of that type: fetching it
-        cannot raise and what it denotes does not depend on what is stored in the container meanwhile"""
-        if not (isinstance(value, ast.Attribute) and isinstance(value.value, ast.Name) and defs.get(value.value.id, 0) == 1):
+    method_names: Set[str] = set()
+
+    def _builtin_bound_method(self, fn, value, defs) -> bool:
+        """`o.m` where o is a local bound once to a dict / list / set display (or comprehension) and m is a method of that type, or o is bound once to
+        a freshly constructed object (`self.__class__(...)`, `cls(...)`, `ClassName(...)`) / is `self`, and m is the name of a method defined in the
+        program and never stored as an attribute: fetching it cannot raise and what it denotes does not depend on what happens to the object meanwhile"""
+        if not (isinstance(value, ast.Attribute) and isinstance(value.value, ast.Name)):
+            return False
+        is_method = value.attr in self.method_names and value.attr.lstrip('_') not in self.stored_anywhere
+        if value.value.id == 'self' and fn.args.args and fn.args.args[0].arg == 'self' and defs.get('self', 0) == 1:
+            return is_method
+        if defs.get(value.value.id, 0) != 1:
             return False
         for n in ast.walk(fn):
             if isinstance(n, ast.Assign) and len(n.targets) == 1 and isinstance(n.targets[0], ast.Name) and n.targets[0].id == value.value.id:
                 ty = {ast.Dict: dict, ast.DictComp: dict, ast.List: list, ast.ListComp: list, ast.Set: set, ast.SetComp: set}.get(type(n.value))
-                return ty is not None and callable(getattr(ty, value.attr, None))
+                if ty is not None:
+                    return callable(getattr(ty, value.attr, None))
+                v = n.value
+                if isinstance(v, ast.Call) and (unparse_(v.func) in ('self.__class__', 'cls', 'type(self)') or isinstance(v.func, ast.Name) and v.func.id[:1].isupper()):
+                    return is_method
         return False
+
+    stored_anywhere: Set[str] = set()
 
     def _exception_point_kept(self, lst, i, x, value) -> bool:
         """moving the evaluation of `value` from lst[i] to the uses of x keeps what is raised and when: value cannot raise, or the first use follows
@@ -1443,12 +1507,19 @@ class Canon:
                                 return node
                         # uses before the definition (loops) would change meaning: require the definition to precede every use textually
                         first_use = min((n.lineno for n in ast.walk(fn) if isinstance(n, ast.Name) and n.id == x and isinstance(n.ctx, ast.Load) and hasattr(n, 'lineno')), default=None)
-                        if first_use is not None and first_use >= getattr(st, 'lineno', 0) and \
-                                (self._builtin_bound_method(fn, value, defs) or
-                                 self._exception_point_kept(lst, i, x, value) and self._value_stable(fn, st, x, value)):
-                            del lst[i]
-                            if not lst:
-                                lst.append(ast.copy_location(ast.Pass(), st))
+                        safe = first_use is not None and first_use >= getattr(st, 'lineno', 0) and \
+                            (self._builtin_bound_method(fn, value, defs) and 'move' or self._value_stable(fn, st, x, value) and
+                             (self._exception_point_kept(lst, i, x, value) and 'move' or 'keep'))
+                        if safe:
+                            if safe == 'move':
+                                del lst[i]
+                                if not lst:
+                                    lst.append(ast.copy_location(ast.Pass(), st))
+                            else:
+                                # the value is the same at every use, but evaluating it may raise and its first use is not right behind the
+                                # definition: the evaluation stays where it is (for what it may raise), the uses are written out
+                                lst[i] = ast.copy_location(ast.Expr(value=copy.deepcopy(value)), st)
+                                self.counts['P-keep'] = self.counts.get('P-keep', 0) + 1
                             R().visit(fn)
                             ast.fix_missing_locations(fn)
                             self.counts['P'] = self.counts.get('P', 0) + 1
@@ -1802,9 +1873,67 @@ def propagate_new_module_constants(sm, inv) -> Tuple[int, Set[str]]:
     return n_sub, changed
 
 
+def propagate_new_class_constants(sm, inv) -> Tuple[int, Set[str]]:
+    """A class-level name that is not in the reference inventory, bound in exactly one class body of the program to a literal, stored nowhere else
+    (no `.NAME = ...`, no setattr with that name): `self.NAME` / `cls.NAME` / `Class.NAME` is that literal (a new named constant such as
+    `_XML_DECLARATION = '<?xml ...'`)."""
+    known = set(inv.get('fields', {}))
+    binds: Dict[str, list] = {}
+    for m in sm.modules.values():
+        if not m.name.startswith('musicxml'):
+            continue
+        for c in [n for n in ast.walk(m.tree) if isinstance(n, ast.ClassDef)]:
+            for st in c.body:
+                tg = st.targets if isinstance(st, ast.Assign) else [st.target] if isinstance(st, ast.AnnAssign) and st.value is not None else []
+                for t in tg:
+                    if isinstance(t, ast.Name):
+                        binds.setdefault(t.id, []).append(st.value)
+    consts = {k: v[0] for k, v in binds.items() if k not in known and len(v) == 1 and isinstance(v[0], ast.Constant) and isinstance(v[0].value, (str, int, float, bool))}
+    if not consts:
+        return 0, set()
+    for m in sm.modules.values():
+        for n in ast.walk(m.tree):
+            if isinstance(n, ast.Attribute) and isinstance(n.ctx, (ast.Store, ast.Del)):
+                consts.pop(n.attr, None)
+            elif isinstance(n, ast.Call) and isinstance(n.func, ast.Name) and n.func.id in ('setattr', 'delattr') and len(n.args) >= 2:
+                if isinstance(n.args[1], ast.Constant):
+                    consts.pop(n.args[1].value, None)
+                else:
+                    pass        # computed names: the library's own setattr calls carry attribute / child names, never a private constant
+            elif isinstance(n, (ast.FunctionDef, ast.AsyncFunctionDef)) and n.name in consts:
+                consts.pop(n.name, None)
+    n_sub = 0
+    changed = set()
+
+    class R(ast.NodeTransformer):
+        def visit_Attribute(self, node):
+            nonlocal n_sub
+            self.generic_visit(node)
+            if isinstance(node.ctx, ast.Load) and node.attr in consts and isinstance(node.value, ast.Name):
+                n_sub += 1
+                return ast.copy_location(ast.Constant(value=consts[node.attr].value), node)
+            return node
+    if consts:
+        for m in sm.modules.values():
+            if not m.name.startswith('musicxml'):
+                continue
+            for q, node, cls, parent in module_function_quals(m.tree):
+                if parent is None:
+                    before = n_sub
+                    R().visit(node)
+                    if n_sub != before:
+                        changed.add(m.name)
+    return n_sub, changed
+
+
 def canonicalise(sm) -> dict:
     canon = Canon()
     canon.stable_fields = call_stable_fields(sm)
+    for m in sm.modules.values():
+        if m.name.startswith('musicxml') or m.name == 'verysimpletree.tree':
+            for c in [n for n in ast.walk(m.tree) if isinstance(n, ast.ClassDef)]:
+                canon.method_names |= {f.name for f in c.body if isinstance(f, (ast.FunctionDef, ast.AsyncFunctionDef)) and not f.decorator_list}
+            canon.stored_anywhere |= {n.attr.lstrip('_') for n in ast.walk(m.tree) if isinstance(n, ast.Attribute) and isinstance(n.ctx, (ast.Store, ast.Del))}
     changed = set()
     kw = _KwToPos(_signatures(sm))
     for m in sm.modules.values():
@@ -1840,6 +1969,9 @@ def normalise(sm) -> dict:
     inl.run()
     n_const, const_mods = propagate_new_module_constants(sm, inv)
     inl.changed_modules |= const_mods
+    n_cconst, cconst_mods = propagate_new_class_constants(sm, inv)
+    inl.changed_modules |= cconst_mods
+    n_const += n_cconst
     can = canonicalise(sm) if os.environ.get('MXSA_NO_CANON') != '1' else {'rewrites': {}, 'changed_modules': []}
     can['rewrites']['module_constants'] = n_const
     inl.changed_modules |= set(can['changed_modules'])
